@@ -913,6 +913,7 @@ func (s *sim) opTime(a int) {
 
 func (s *sim) opRestart() {
 	m := s.model
+	s.digest() // the stored position may have been written since the last look
 	// where will the machine re-enter?
 	h, r := s.w.initH, uint32(0)
 	if m.storedHR != nil {
@@ -947,6 +948,7 @@ func (s *sim) opRestart() {
 	}
 	s.labels["restart"] = true
 	s.teardown()
+	s.digest() // writes that completed while the incarnation was stopping
 	s.w.mu.Lock()
 	s.w.inc++
 	s.w.evLocked("restart", h, r, "", nil, nil)
